@@ -360,6 +360,13 @@ func runHistory(r *vx.Run, h []hreq) {
 			continue
 		}
 		if pan != "" {
+			// a handler that panics answers 500 (the Recoverer): an error. It must not have left an entry or an event.
+			if len(disk.Logs) != before {
+				r.FailP("C06", "http:panic-after-the-entry-was-persisted:"+q.API+":"+q.Kind, in0, fmt.Sprintf("%d new entries, then panic: %s", len(disk.Logs)-before, pan), size)
+			}
+			if len(w.events) != evBefore && len(disk.Logs) == before {
+				r.FailP("C16", "http:event-without-entry-from-a-panicking-request:"+q.API+":"+q.Kind, in0, pan, size)
+			}
 			continue
 		}
 		res := result{Status: rec.Code}
@@ -592,6 +599,63 @@ func gen(g *vx.Rng) []hreq {
 	return h
 }
 
+// varsShapes: `script.vars` of a create request as a client may spell it (C12: no variable map can crash the engine; the
+// API's decoding of the map is part of that path): every JSON shape, through v1, v2 and a bulk element. No panic; a 2xx
+// answer means exactly one entry, anything else none.
+func varsShapes(r *vx.Run) {
+	plain := "vars {\n  monetary $val\n  account $dst\n}\nsend $val (\n  source = @world\n  destination = $dst\n)\n"
+	shapes := []string{
+		`{"val":"USD 10","dst":"alice"}`, `{"val":{"asset":"USD","amount":10},"dst":"alice"}`, `{"val":{"asset":"USD/2","amount":100},"dst":"alice"}`,
+		`{"val":{"amount":100},"dst":"alice"}`, `{"val":{"asset":2,"amount":100},"dst":"alice"}`, `{"val":{"asset":null,"amount":1},"dst":"alice"}`,
+		`{"val":{"asset":{"a":1},"amount":1},"dst":"alice"}`, `{"val":{"asset":"USD"},"dst":"alice"}`, `{"val":{"asset":"USD","amount":"10"},"dst":"alice"}`,
+		`{"val":{"asset":"USD","amount":1.5},"dst":"alice"}`, `{"val":{"asset":"USD","amount":-1},"dst":"alice"}`, `{"val":{"asset":"USD","amount":1e30},"dst":"alice"}`,
+		`{"val":{"asset":"USD","amount":null},"dst":"alice"}`, `{"val":{"asset":"USD","amount":[1]},"dst":"alice"}`, `{"val":{},"dst":"alice"}`,
+		`{"val":null,"dst":"alice"}`, `{"val":[1],"dst":"alice"}`, `{"val":5,"dst":"alice"}`, `{"val":true,"dst":"alice"}`, `{"val":"USD 10","dst":5}`,
+		`{"val":"USD 10","dst":null}`, `{"val":"USD 10","dst":{"a":"b"}}`, `{"val":"USD 10","dst":["alice"]}`, `{"val":"USD 10"}`, `{}`, `null`, `"x"`, `[1]`, `5`,
+		`{"val":"USD 10","dst":"alice","extra":{"deep":{"deeper":[1,2,{"x":null}]}}}`, `{"val":"10","dst":"alice"}`, `{"val":"USD","dst":"alice"}`, `{"val":"USD 1 2","dst":"alice"}`,
+	}
+	for _, api := range []string{"v1", "v2", "bulk"} {
+		for _, vars := range shapes {
+			disk := &engx.Disk{}
+			w := boot(disk)
+			js, _ := json.Marshal(plain)
+			data := fmt.Sprintf(`{"script":{"plain":%s,"vars":%s}}`, js, vars)
+			method, path, body := "POST", "/api/ledger/l0/transactions", data
+			switch api {
+			case "v2":
+				path = "/api/ledger/v2/l0/transactions"
+			case "bulk":
+				path, body = "/api/ledger/v2/l0/_bulk", `[{"action":"CREATE_TRANSACTION","data":`+data+`}]`
+			}
+			req := httptest.NewRequest(method, path, bytes.NewBufferString(body))
+			req.Header.Set("Content-Type", "application/json")
+			rec := httptest.NewRecorder()
+			pan := ""
+			func() {
+				defer func() {
+					if e := recover(); e != nil {
+						pan = fmt.Sprint(e)
+					}
+				}()
+				w.router.ServeHTTP(rec, req)
+			}()
+			in := map[string]any{"api": api, "vars": json.RawMessage(vars), "script": plain}
+			ok := rec.Code >= 200 && rec.Code < 300 && api != "bulk"
+			switch {
+			case pan != "":
+				r.FailP("C12", "http:panic-decoding-or-running-script-vars:"+api, in, pan, len(vars))
+			case ok && len(disk.Logs) != 1:
+				r.FailP("C06", "http:success-without-exactly-one-entry:"+api+":script-vars", in, fmt.Sprintf("status %d, %d entries", rec.Code, len(disk.Logs)), len(vars))
+			case !ok && api != "bulk" && len(disk.Logs) != 0:
+				r.FailP("C06", "http:rejected-write-left-an-entry:"+api+":script-vars", in, fmt.Sprintf("status %d, %d entries", rec.Code, len(disk.Logs)), len(vars))
+			}
+			w.cancel()
+			r.Count("http:script-vars-shape")
+			r.Case("", in, api+vars, true)
+		}
+	}
+}
+
 func main() {
 	r := vx.Start("C14", "httpwrite")
 	r.Sum.Rule = "sequential histories of write requests through the real v1/v2 routers and controllers to the real Commander over a log-fold store: postings and script bodies, reverts (force / disableChecks), account and transaction metadata, with Idempotency-Key headers and every spelling of the dryRun / preview parameter; non-trivial = at least 3 requests; distinct by the JSON of the history"
@@ -616,6 +680,7 @@ func main() {
 	for i := 0; i < n; i++ {
 		runHistory(r, gen(g.Fork()))
 	}
+	varsShapes(r)
 	r.Sum.Shards = []string{}
 	r.Finish()
 }
